@@ -56,6 +56,7 @@ type c34Env struct {
 	hugeZero  string         // thorough: 3 MiB zeros
 	hugeOdd   string         // thorough: 1 MiB + 1 byte (one byte past the pgzip block)
 	small     []string       // many small files
+	frac      []string       // source files whose modification time has a sub-second part (.7, .3, .5 s)
 	scripts   map[string]string
 	changelog string
 	dpkgDeb   string // path of dpkg-deb or ""
@@ -149,6 +150,17 @@ func c34Setup(c *Ctx) (*c34Env, error) {
 		}
 		e.small = append(e.small, p)
 	}
+	for i, ns := range []int64{700_000_000, 300_000_000, 500_000_000} {
+		p, err := write(fmt.Sprintf("frac-%d.txt", i), []byte(fmt.Sprintf("mtime with a sub-second part of %d ns\n", ns)))
+		if err != nil {
+			return nil, err
+		}
+		mt := time.Unix(1600020000+int64(i), ns)
+		if err := os.Chtimes(p, mt, mt); err != nil {
+			return nil, err
+		}
+		e.frac = append(e.frac, p)
+	}
 	if e.changelog, err = write("changelog.yaml", []byte(c34Changelog)); err != nil {
 		return nil, err
 	}
@@ -184,6 +196,21 @@ type c34Case struct {
 	Class     string // payload class the generator aimed at
 	Label     string // family fork label and index: enough to regenerate the case from the seed
 	MustBuild bool   // the configuration is valid by construction: a build error is a finding
+	// Clock makes the wall clock an explicit input of scenarios with info.MTime unset: "low" builds while
+	// the sub-second part of the clock is below 0.35 s, "high" while it is above 0.6 s, "" whenever.
+	Clock string
+}
+
+// c34AwaitClock sleeps (at most a second) until the sub-second part of the wall clock is in the requested window.
+func c34AwaitClock(which string) {
+	for i := 0; i < 400; i++ {
+		ms := time.Now().Nanosecond() / 1e6
+		switch {
+		case which == "low" && ms < 300, which == "high" && ms >= 600 && ms < 900, which == "":
+			return
+		}
+		time.Sleep(5 * time.Millisecond)
+	}
 }
 
 var (
@@ -204,6 +231,7 @@ func (e *c34Env) boundaryPayloads() []c34Payload {
 	t := e.tree.Root
 	j := func(rel string) string { return filepath.Join(t, rel) }
 	ps := []c34Payload{
+		{"fractional-source-mtime", []wire.Content{c34File(e.frac[0], "/usr/share/frac/f7"), c34File(e.frac[1], "/usr/share/frac/f3"), c34File(e.frac[2], "/usr/share/frac/f5")}},
 		{"empty", nil},
 		{"only-dirs", []wire.Content{{Dst: "/var/lib/app/", Type: "dir"}, {Dst: "/b/", Type: "dir"}, {Dst: "/a/x/", Type: "dir"},
 			{Dst: "/opt/app/deep/er", Type: "dir", Info: &wire.FileInfo{Mode: 0o750, Owner: "app", Group: "app", MTime: wire.ZeroTime}}}},
@@ -263,7 +291,11 @@ func (e *c34Env) mixedPayload() c34Payload {
 }
 
 func c34Base(p c34Payload, mtime int64) *PkgSpec {
-	return &PkgSpec{Raw: p.Raw, Umask: 0o022, MTime: mtime, Describe: map[string]any{"class": p.Class}}
+	d := map[string]any{"class": p.Class}
+	if p.Class == "fractional-source-mtime" {
+		d["source_mtimes"] = "frac-0.txt 1600020000.7, frac-1.txt 1600020001.3, frac-2.txt 1600020002.5 (seconds since the epoch)"
+	}
+	return &PkgSpec{Raw: p.Raw, Umask: 0o022, MTime: mtime, Describe: d}
 }
 
 func c34WithCompression(s *PkgSpec, deb, rpm string) *PkgSpec {
@@ -404,8 +436,17 @@ func (e *c34Env) randomCases(r *rng.R, n int) []c34Case {
 func (e *c34Env) boundaryCases() []c34Case {
 	var out []c34Case
 	for pi, p := range e.boundaryPayloads() {
-		for _, mt := range []int64{1700000000} {
+		mts := []int64{1700000000}
+		switch {
+		case e.c.Thorough(), p.Class == "fractional-source-mtime", p.Class == "setuid-owner-mtime", p.Class == "tree-and-globs", p.Class == "empty", p.Class == "only-dirs":
+			mts = append(mts, wire.ZeroTime) // info.MTime unset: entries carry the modification time of their source
+		}
+		for _, mt := range mts {
 			base := c34Base(p, mt)
+			mtl := ""
+			if mt == wire.ZeroTime {
+				mtl = "/mtime-unset"
+			}
 			for _, f := range Formats {
 				var comps []string
 				switch f {
@@ -420,8 +461,14 @@ func (e *c34Env) boundaryCases() []c34Case {
 					comps = []string{comps[pi%len(comps)], comps[(pi*3+1)%len(comps)], comps[(pi*5+2)%len(comps)]}
 				}
 				for _, comp := range comps {
-					out = append(out, c34Case{S: c34WithCompression(base, comp, comp), Format: f, Class: p.Class,
-						Label: fmt.Sprintf("boundary/%s/%s", p.Class, comp), MustBuild: true})
+					cs := c34Case{S: c34WithCompression(base, comp, comp), Format: f, Class: p.Class,
+						Label: fmt.Sprintf("boundary/%s/%s%s", p.Class, comp, mtl), MustBuild: true}
+					if f == "archlinux" && mt == wire.ZeroTime {
+						// the clock is varied explicitly in the extras family and freely in the random family
+						cs.Clock = "low"
+						cs.Label += "/clock-low"
+					}
+					out = append(out, cs)
 				}
 			}
 		}
@@ -464,14 +511,14 @@ func (e *c34Env) compressionCases(r *rng.R) []c34Case {
 func (e *c34Env) signedCases(r *rng.R) []c34Case {
 	var out []c34Case
 	bp := e.boundaryPayloads()
-	payloads := []c34Payload{e.mixedPayload(), bp[0] /* empty */}
+	payloads := []c34Payload{e.mixedPayload()}
 	for _, p := range bp {
 		switch p.Class {
-		case "big-random+zeros", "single-char-dirs", "exact-4095", "only-dirs":
+		case "empty", "big-random+zeros", "single-char-dirs", "exact-4095", "only-dirs":
 			payloads = append(payloads, p)
 		}
 	}
-	rounds := e.c.N(1, 6)
+	rounds := e.c.N(1, 12)
 	k := 0
 	next := func() (*PkgSpec, string) {
 		p := payloads[k%len(payloads)]
@@ -549,7 +596,16 @@ func (e *c34Env) extrasCases(r *rng.R) []c34Case {
 					if len(v) > 0 {
 						s = e.withScripts(s, v)
 					}
-					out = append(out, c34Case{S: s, Format: f, Class: p.Class, Label: fmt.Sprintf("extras/%s/%s/scripts-%d/%s", f, p.Class, vi, mtl), MustBuild: true})
+					cs := c34Case{S: s, Format: f, Class: p.Class, Label: fmt.Sprintf("extras/%s/%s/scripts-%d/%s", f, p.Class, vi, mtl), MustBuild: true}
+					if f == "archlinux" && mt == wire.ZeroTime {
+						cs.Clock = "low"
+					}
+					out = append(out, cs)
+				}
+				if mt == wire.ZeroTime {
+					for _, clk := range []string{"low", "high"} {
+						out = append(out, c34Case{S: base, Format: f, Class: p.Class, Label: fmt.Sprintf("extras/%s/%s/mtime-unset/clock-%s", f, p.Class, clk), MustBuild: true, Clock: clk})
+					}
 				}
 				if f == "deb" || f == "rpm" {
 					for _, comp := range []string{"", "xz", "zstd"} {
@@ -806,6 +862,8 @@ func c34LastDataEnd(s []byte) (int, bool) {
 
 func c34FirstDiff(want, got string) string {
 	w, g := strings.Split(want, "\n"), strings.Split(got, "\n")
+	var out []string
+	n := 0
 	for i := 0; i < len(w) || i < len(g); i++ {
 		var a, b string
 		if i < len(w) {
@@ -815,10 +873,81 @@ func c34FirstDiff(want, got string) string {
 			b = g[i]
 		}
 		if a != b {
-			return fmt.Sprintf("first difference at line %d of %d (spec) / %d (package): spec %q, package %q", i+1, len(w), len(g), c34Short(a, 300), c34Short(b, 300))
+			n++
+			if len(out) < 4 {
+				out = append(out, fmt.Sprintf("line %d: spec %q, package %q", i+1, c34Short(a, 300), c34Short(b, 300)))
+			}
 		}
 	}
-	return "no line differs"
+	if n == 0 {
+		return "no line differs"
+	}
+	return fmt.Sprintf("%d of %d (spec) / %d (package) lines differ: %s", n, len(w), len(g), strings.Join(out, "; "))
+}
+
+// c34DiffClass names, for a line-oriented digest listing, which parts of the lines
+// differ (stable, input-independent): it refines the shape of a "differs" finding
+// so that one known difference does not mask another.
+func c34DiffClass(want, got string, split func(line string) map[string]string) string {
+	w, g := strings.Split(want, "\n"), strings.Split(got, "\n")
+	set := map[string]bool{}
+	if len(w) != len(g) {
+		set["lines"] = true
+	}
+	for i := 0; i < len(w) && i < len(g); i++ {
+		if w[i] == g[i] {
+			continue
+		}
+		a, b := split(w[i]), split(g[i])
+		for k, v := range a {
+			if bv, ok := b[k]; !ok || bv != v {
+				set[k] = true
+			}
+		}
+		for k := range b {
+			if _, ok := a[k]; !ok {
+				set[k] = true
+			}
+		}
+	}
+	var ks []string
+	for k := range set {
+		ks = append(ks, k)
+	}
+	sort.Strings(ks)
+	if len(ks) == 0 {
+		return "none"
+	}
+	return strings.Join(ks, "-")
+}
+
+func c34MtreeSplit(line string) map[string]string {
+	m := map[string]string{}
+	rest := ""
+	if i := strings.Index(line, " time="); i >= 0 {
+		m["path"], rest = line[:i], line[i+1:]
+	} else {
+		m["path"] = line
+	}
+	if i := strings.Index(rest, " link="); i >= 0 {
+		m["link"], rest = rest[i+6:], rest[:i]
+	}
+	for _, tok := range strings.Fields(rest) {
+		k, v, _ := strings.Cut(tok, "=")
+		if m["path"] == "./.PKGINFO" {
+			k = "pkginfo:" + k // the line of .PKGINFO is written by other code than the payload lines
+		}
+		m[k] = v
+	}
+	return m
+}
+
+func c34Md5Split(line string) map[string]string {
+	d, n, ok := strings.Cut(line, "  ")
+	if !ok {
+		return map[string]string{"format": line}
+	}
+	return map[string]string{"digest": d, "name": n}
 }
 
 // tarFacts checks what the raw block walker found in one tar stream.
@@ -928,6 +1057,7 @@ func (e *c34Env) analyse(fam, format string, s *PkgSpec, data []byte, res *c34Re
 						want, _ := wire.UnH(a)
 						for i := range res.C03 {
 							if strings.HasSuffix(res.C03[i].Shape, ":md5sums-differs") {
+								res.C03[i].Shape += "/" + c34DiffClass(want, string(md5sums), c34Md5Split)
 								res.C03[i].What += " — " + c34FirstDiff(want, string(md5sums))
 							}
 						}
@@ -1184,6 +1314,7 @@ func (e *c34Env) analyse(fam, format string, s *PkgSpec, data []byte, res *c34Re
 						d := c34FirstDiff(want, string(a.MtreeRaw))
 						for i := range res.C03 {
 							if strings.HasSuffix(res.C03[i].Shape, ":mtree-differs") {
+								res.C03[i].Shape += "/" + c34DiffClass(want, string(a.MtreeRaw), c34MtreeSplit)
 								res.C03[i].What += " — " + d
 							}
 						}
@@ -1401,6 +1532,11 @@ func (e *c34Env) one(fam string, cs c34Case) *c34Result {
 	} else {
 		res.Labels = append(res.Labels, "mtime:set")
 	}
+	if cs.Clock != "" {
+		in["clock"] = "built while the sub-second part of the wall clock was " + map[string]string{"low": "below 0.3 s", "high": "between 0.6 s and 0.9 s"}[cs.Clock]
+		res.Labels = append(res.Labels, "clock:"+cs.Clock)
+		c34AwaitClock(cs.Clock)
+	}
 	data, err := BuildPkg(f, s.Info())
 	if err != nil {
 		res.BuildErr = err
@@ -1551,17 +1687,17 @@ func c34Families(c *Ctx, prop string, seg *c34Seg) (*c34Env, error) {
 			firstErr = err
 		}
 	}
-	r := c.R.Fork("c34-random")
-	keep(e.runFamily(prop, "random", "random content lists over a real source tree (files, config types, dirs, symlinks, trees, globs, ghost/doc/licence/readme, packager tags, partial file_info incl. setuid/setgid/sticky, owner, explicit mtime; single-character and nested directory names such as /a/x and /b/, names with spaces and unicode, exact block-size files, occasionally a 300 KiB file) x umask x mtime set/unset x 5 formats x random compression, 1/4 with a random subset of scripts, 1/6 with a changelog (deb, rpm), 1/5 signed (deb debsign/dpkg-sig, rpm, apk). Checked: "+what+c34Common,
-		e.randomCases(r, c.N(200, 3000)), seg))
-	keep(e.runFamily(prop, "boundary", "boundary payloads: empty payload, only directories, only symlinks, empty files, single-character directories, unicode names, setuid/owner/mtime overrides, tree+globs, rpm-only types, names longer than 100 and 255 bytes, one file of exactly 1/511/512/513/1023/1024/1025/4095/4096/4097 bytes, all of them together, 300 KiB random, 300 KiB zeros, both (thorough: 3 MiB random, 3 MiB zeros + 1 MiB+1), many small files (40 quick, 200 thorough) x 5 formats x compression (deb: every setting; rpm quick: three settings rotating per payload, thorough: every setting). A build error is a finding. Checked: "+what+c34Common,
+	keep(e.runFamily(prop, "boundary", "boundary payloads: empty payload, only directories, only symlinks, empty files, single-character directories, unicode names, setuid/owner/mtime overrides, tree+globs, rpm-only types, names longer than 100 and 255 bytes, source files whose mtime has a sub-second part, one file of exactly 1/511/512/513/1023/1024/1025/4095/4096/4097 bytes, all of them together, 300 KiB random, 300 KiB zeros, both (thorough: 3 MiB random, 3 MiB zeros + 1 MiB+1), many small files (40 quick, 200 thorough) x 5 formats x compression (deb: every setting; rpm quick: three settings rotating per payload, thorough: every setting). The payloads fractional-source-mtime, setuid-owner-mtime, tree-and-globs, empty, only-dirs are also built with info.MTime unset (thorough: every payload). A build error is a finding. Checked: "+what+c34Common,
 		e.boundaryCases(), seg))
 	keep(e.runFamily(prop, "compression", "every compression setting (deb: \"\", gzip, xz, zstd, none; rpm: \"\", gzip, gzip:1, gzip:9, gzip:-1, xz, lzma, zstd, zstd:1, zstd:19, zstd:fastest) x payload {mixed (mtime set and unset), empty, 300 KiB random + 300 KiB zeros, all exact sizes}. A build error for a setting the schema accepts is a finding. Checked: "+what+c34Common,
 		e.compressionCases(c.R.Fork("c34-compression")), seg))
 	keep(e.runFamily(prop, "signed", "signed packages: deb debsign x type {unset, origin, maint, archive} x compression, deb dpkg-sig x type {unset, builder, origin, maint, archive} x compression (quick: alternating half of each grid), rpm x 8 PGP key variants x rotating compression, apk x 3 RSA keys x key name {unset, origin, x.rsa.pub}; payloads rotate over mixed, empty, big, single-character dirs, exact-4095, only-dirs; the subkey-only key files c10 records as unusable for dpkg-sig are left out. Checked: "+what+c34Common,
 		e.signedCases(c.R.Fork("c34-signed")), seg))
-	keep(e.runFamily(prop, "extras", "scripts {none, first, all, last; archlinux: each script alone; thorough: 6 random subsets} x 5 formats, changelog (deb incl. changelog+all scripts+dpkg-sig, rpm) x compression {\"\", xz, zstd}, each on a mixed and on an empty payload with info.MTime set and unset (SOURCE_DATE_EPOCH unset). Checked: "+what+c34Common,
+	keep(e.runFamily(prop, "extras", "scripts {none, first, all, last; archlinux: each script alone; thorough: 6 random subsets} x 5 formats, changelog (deb incl. changelog+all scripts+dpkg-sig, rpm) x compression {\"\", xz, zstd}, each on a mixed and on an empty payload with info.MTime set and unset (SOURCE_DATE_EPOCH unset); with info.MTime unset every format is additionally built once while the sub-second part of the wall clock is below 0.3 s and once while it is above 0.6 s (the clock is an input then). Checked: "+what+c34Common,
 		e.extrasCases(c.R.Fork("c34-extras")), seg))
+	r := c.R.Fork("c34-random")
+	keep(e.runFamily(prop, "random", "random content lists over a real source tree (files, config types, dirs, symlinks, trees, globs, ghost/doc/licence/readme, packager tags, partial file_info incl. setuid/setgid/sticky, owner, explicit mtime; single-character and nested directory names such as /a/x and /b/, names with spaces and unicode, exact block-size files, occasionally a 300 KiB file) x umask x mtime set/unset x 5 formats x random compression, 1/4 with a random subset of scripts, 1/6 with a changelog (deb, rpm), 1/5 signed (deb debsign/dpkg-sig, rpm, apk). Checked: "+what+c34Common,
+		e.randomCases(r, c.N(400, 12000)), seg))
 	return e, firstErr
 }
 
